@@ -251,7 +251,9 @@ func (r SliceDotsReplacer) Replace(d data.Data, cl Changelog, pos token.Pos) (re
 
 	result := reflect.MakeSlice(r.Type, len(items), len(items))
 	for i, item := range items {
-		result.Index(i).Set(item)
+		if err := setValue(result.Index(i), item); err != nil {
+			return reflect.Value{}, err
+		}
 	}
 	return result, nil
 }
